@@ -12,6 +12,9 @@ use syn::visit::{self, Visit};
 
 #[derive(Deserialize, Default, Clone)]
 struct Contract {
+    /// a private helper that the code may stop having (nothing is lost when it is gone: its callers are checked against their own contracts)
+    #[serde(default)]
+    optional: bool,
     /// name given to the return value (`-> (r: T)`)
     #[serde(default)]
     ret: Option<String>,
@@ -1356,6 +1359,22 @@ impl<'ast, 'p> Visit<'ast> for Ctx<'p> {
                 }
             }
         }
+        // R30: `queue.extend(opt.take())` (an Option is an iterator of at most one item) -> helper over VecDeque with the spec "push_back if Some"
+        if verified && m.method == "extend" && m.args.len() == 1 {
+            if let syn::Expr::MethodCall(a) = &m.args[0] {
+                if a.method == "take" && a.args.is_empty() {
+                    let (rs, re) = br(m.receiver.span());
+                    let (as_, ae) = br(m.args[0].span());
+                    self.replace(s, e, vec![Part::Lit("vx_extend_opt(&mut ".into()), Part::Src(rs, re), Part::Lit(", ".into()), Part::Src(as_, ae), Part::Lit(")".into())]);
+                    if !self.helpers.iter().any(|h| h.contains("fn vx_extend_opt")) {
+                        self.helpers.push("// R30: VecDeque::extend with an Option argument (Option::take()): push_back when it is Some\n#[verifier::external_body]\nfn vx_extend_opt<T>(v: &mut std::collections::VecDeque<T>, o: Option<T>)\n    ensures final(v)@ == (match o { Some(x) => old(v)@.push(x), None => old(v)@ })\n{ v.extend(o) }\n".into());
+                    }
+                    self.log(s, "R30", "VecDeque::extend(Option::take()) -> vx_extend_opt");
+                    visit::visit_expr_method_call(self, m);
+                    return;
+                }
+            }
+        }
         // R3
         if verified {
             let name = m.method.to_string();
@@ -2503,7 +2522,11 @@ fn main() {
     }
     // drop individual functions listed in plan.drop (by fn key): replace by nothing
     // (handled by callers through `external` in practice)
-    for k in plan.contracts.keys() {
+    for (k, c_) in plan.contracts.iter() {
+        if !cx.used_contracts.contains(k) && c_.optional {
+            cx.out.log.push(format!("{}: optional helper `{}` is not in the source any more: its contract is dropped", short(&plan.file), k));
+            continue;
+        }
         if !cx.used_contracts.contains(k) {
             cx.out.errors.push(format!("lost anchor: contracted function `{}` not found in {}", k, short(&plan.file)));
         }
